@@ -58,15 +58,18 @@ void nlv_reg_free(void *ptr, int tag) {
     unsigned h = nlv_hash(ptr) & (unsigned)(nlv_cap - 1);
     while (nlv_tab[h].ptr && nlv_tab[h].ptr != ptr) h = (h + 1) & (unsigned)(nlv_cap - 1);
     if (!nlv_tab[h].ptr) { fprintf(nlv_out, "{\"e\":\"badfree\",\"tag\":%d}\n", tag); return; }   /* not live: double free */
-    /* delete with backward shift so that probing stays correct */
-    unsigned i = h, mask = (unsigned)(nlv_cap - 1);
+    /* delete with backward shift so that probing stays correct (Knuth 6.4 algorithm R) */
+    unsigned hole = h, j = h, mask = (unsigned)(nlv_cap - 1);
     for (;;) {
-        unsigned j = (i + 1) & mask;
+        j = (j + 1) & mask;
         if (!nlv_tab[j].ptr) break;
         unsigned k = nlv_hash(nlv_tab[j].ptr) & mask;
-        if ((i <= j) ? (i < k && k <= j) : (i < k || k <= j)) { i = j; continue; }
-        nlv_tab[h] = nlv_tab[j]; h = j; i = j;
+        /* the entry at j may stay if its home slot k lies cyclically in (hole, j] */
+        int stay = (hole <= j) ? (hole < k && k <= j) : (hole < k || k <= j);
+        if (stay) continue;
+        nlv_tab[hole] = nlv_tab[j]; hole = j;
     }
+    h = hole;
     nlv_tab[h].ptr = NULL; nlv_live--;
 }
 int nlv_reg_id(const void *ptr) {
